@@ -20,7 +20,12 @@ EXTENDS Naturals, Sequences, FiniteSets, TLC, Json
 CONSTANTS Writes,          \* e.g. {"w1", "w2"}
           NCb,             \* number of callbacks
           Atomic,
-          TallyReset       \* TRUE: a write whose counter is not in the tally map re-creates the map (the code before the fix)
+          TallyReset,      \* TRUE: a write whose counter is not in the tally map re-creates the map (the code before the fix)
+          Epochs,          \* 1, or 2: the connection is removed at some point and the peer connects, binds and writes again;
+                           \* its message counters start again, so the writes of the second epoch carry the identities
+                           \* (peer, counter) of the first
+          StaleTally       \* FALSE: the teardown forgets the approvals counted so far (contract, CleanWriteApprovalCaches);
+                           \* TRUE: they survive (shows that Safe is sensitive to it)
 
 Cbs == 1..NCb
 VerdictVals == {"approve", "deny", "silent"}
@@ -33,14 +38,17 @@ VARIABLES verdict,   \* [Writes -> [Cbs -> VerdictVals]]
           tdone,     \* writes whose timer callback has run
           stopped,   \* writes whose timer was stopped in time
           outcome,   \* [Writes -> sequence of "ok" | "err"]
-          sched      \* the steps taken, in order
-vars == <<verdict, expires, pend, tally, vpc, tdone, stopped, outcome, sched>>
+          sched,     \* the steps taken in this epoch, in order
+          epoch,     \* 1..Epochs
+          past       \* the finished epochs: sequence of [verdict, expires, sched]
+vars == <<verdict, expires, pend, tally, vpc, tdone, stopped, outcome, sched, epoch, past>>
 
 Silent(w) == \E c \in Cbs : verdict[w][c] = "silent"
 Init == /\ verdict \in [Writes -> [Cbs -> VerdictVals]]
         /\ expires \in {e \in [Writes -> BOOLEAN] : \A w \in Writes : Silent(w) => e[w]}
         /\ pend = Writes /\ tally = << >> /\ vpc = [w \in Writes |-> [c \in Cbs |-> "idle"]]
         /\ tdone = {} /\ stopped = {} /\ outcome = [w \in Writes |-> << >>] /\ sched = << >>
+        /\ epoch = 1 /\ past = << >>
 
 VName(w, c) == "v:" \o w \o ":" \o ToString(c)
 TName(w) == "t:" \o w
@@ -65,20 +73,34 @@ V1(w, c) == /\ vpc[w][c] = "idle" /\ verdict[w][c] # "silent"
                THEN vpc' = [vpc EXCEPT ![w][c] = "done"] /\ UNCHANGED <<pend, tally, stopped, outcome>>     \* too late
                ELSE IF Atomic THEN vpc' = [vpc EXCEPT ![w][c] = "done"] /\ Decide(w, c)
                ELSE vpc' = [vpc EXCEPT ![w][c] = "looked"] /\ UNCHANGED <<pend, tally, stopped, outcome>>
-            /\ UNCHANGED <<verdict, expires, tdone>>
+            /\ UNCHANGED <<verdict, expires, tdone, epoch, past>>
 V2(w, c) == /\ vpc[w][c] = "looked"
             /\ sched' = Append(sched, VName(w, c))
             /\ vpc' = [vpc EXCEPT ![w][c] = "done"]
             /\ Decide(w, c)
-            /\ UNCHANGED <<verdict, expires, tdone>>
+            /\ UNCHANGED <<verdict, expires, tdone, epoch, past>>
 \* the timer callback: the code sends the error result unconditionally, the contract only if still pending
 T(w) == /\ expires[w] /\ w \notin tdone
         /\ sched' = Append(sched, TName(w))
         /\ tdone' = tdone \cup {w}
         /\ pend' = pend \ {w}
         /\ outcome' = [outcome EXCEPT ![w] = IF Atomic /\ w \notin pend THEN @ ELSE Append(@, "err")]
-        /\ UNCHANGED <<verdict, expires, tally, vpc, stopped>>
-Next == \E w \in Writes : T(w) \/ \E c \in Cbs : V1(w, c) \/ V2(w, c)
+        /\ UNCHANGED <<verdict, expires, tally, vpc, stopped, epoch, past>>
+\* Teardown and return of the peer: enabled at any point where no verdict call is in flight and every timeout that
+\* elapses has run (the timers of the other writes never fire).  Writes that were still waiting for verdicts are
+\* dropped without outcome (their connection is gone); the writes of the new epoch start from nothing.
+Reconnect == /\ epoch < Epochs
+             /\ \A w \in Writes : \A c \in Cbs : vpc[w][c] # "looked"
+             /\ \A w \in Writes : expires[w] => w \in tdone
+             /\ epoch' = epoch + 1
+             /\ past' = Append(past, [verdict |-> verdict, expires |-> expires, sched |-> sched])
+             /\ verdict' \in [Writes -> [Cbs -> VerdictVals]]
+             /\ expires' \in {e \in [Writes -> BOOLEAN] : \A w \in Writes : (\E c \in Cbs : verdict'[w][c] = "silent") => e[w]}
+             /\ pend' = Writes
+             /\ tally' = IF StaleTally THEN tally ELSE << >>
+             /\ vpc' = [w \in Writes |-> [c \in Cbs |-> "idle"]]
+             /\ tdone' = {} /\ stopped' = {} /\ outcome' = [w \in Writes |-> << >>] /\ sched' = << >>
+Next == Reconnect \/ \E w \in Writes : T(w) \/ \E c \in Cbs : V1(w, c) \/ V2(w, c)
 Spec == Init /\ [][Next]_vars
 
 Quiescent == /\ \A w \in Writes : \A c \in Cbs : verdict[w][c] = "silent" \/ vpc[w][c] = "done"
@@ -96,5 +118,5 @@ Unsafe == ~((\A w \in Writes : Len(outcome[w]) = 1) /\
             (\A w \in Writes : \A i \in DOMAIN outcome[w] : (outcome[w][i] = "ok" => AllApprove(w))
                                 /\ (~expires[w] /\ AllApprove(w) => outcome[w][i] = "ok") /\ (~expires[w] /\ ~AllApprove(w) => outcome[w][i] = "err")))
 \* generator: every complete interleaving of every configuration, with the model's verdict about it
-EmitInv == Quiescent => PrintT(<<"S", ToJson([verdict |-> verdict, expires |-> expires, sched |-> sched, unsafe |-> Unsafe])>>)
+EmitInv == (Quiescent /\ epoch = Epochs) => PrintT(<<"S", ToJson([verdict |-> verdict, expires |-> expires, sched |-> sched, unsafe |-> Unsafe, past |-> past])>>)
 =============================================================================
